@@ -40,10 +40,16 @@ Senders ==
     \cup {[caller |-> "gateway", via |-> "direct", through |-> "none", auth |-> au] : au \in {{}, {"bob"}}}
     \cup {[caller |-> "alice", via |-> "other", through |-> "pr1", auth |-> au] : au \in {{"alice"}, {"bob"}, {}}}
 
+\* a calling contract repeats the very same call within one transaction: announced every time
+RepeatActs ==
+    {[name |-> "CallContract", caller |-> "pr1", via |-> "self", through |-> "none", auth |-> {}, times |-> n,
+      chain |-> "ethereum", addr |-> "0xabc", payload |-> p] : n \in {2, 3}, p \in {"P1", "P0"}}
+
 Acts(s) ==
     {[name |-> "CallContract", caller |-> x.caller, via |-> x.via, through |-> x.through, auth |-> x.auth,
       chain |-> c, addr |-> d, payload |-> p] :
         x \in Senders, c \in Chains, d \in Addrs, p \in DOMAIN Payloads}
+    \cup RepeatActs
 
 InitState == [Install(Install(Install(Install(Install(Blank("owner0", "op0", 0), "s1"), "s2"), "s3"), "s4"), "s5")
                  EXCEPT !.deployed = TRUE]
@@ -53,8 +59,9 @@ Next == \E a \in Acts(st) : st' = Apply(st, a).post
 -----------------------------------------------------------------------------
 Step(P(_, _, _)) == \A a \in Acts(st) : P(st, a, Apply(st, a))
 Announce(s, a, r) ==
-    r.ok => /\ r.ev = <<[k |-> "contract_called", caller |-> a.caller, chain |-> a.chain, addr |-> a.addr,
-                         payload |-> a.payload, ph |-> a.payload]>>
+    r.ok => /\ Len(r.ev) = (IF "times" \in DOMAIN a THEN a.times ELSE 1)
+            /\ \A i \in DOMAIN r.ev : r.ev[i] = [k |-> "contract_called", caller |-> a.caller, chain |-> a.chain, addr |-> a.addr,
+                                                 payload |-> a.payload, ph |-> a.payload]
             /\ r.post = s
 OnlyAuthorised(s, a, r) == r.ok <=> (a.caller \in a.auth \/ a.via = "self")
 Silent(s, a, r) == ~r.ok => r.ev = <<>> /\ r.post = s
